@@ -307,7 +307,7 @@ Definition run_attempt (k : akind) (s : sess) (p : task) (pq : positive) (a : at
   | None => (s, false, V_NO_NODE, [])
   | Some n =>
     let cset := node_cands k s p pq n in
-    if negb (same_ids cset (at_cands a)) then (s, false, V_CANDS, []) else
+    if negb (same_ids cset (at_cands a) && bool_decide (NoDup (at_cands a))) then (s, false, V_CANDS, []) else
     (* the candidates in the order the code enumerated them *)
     let cands := omap (find_task cset) (at_cands a) in
     if is_reclaim k && bool_decide (cands = []) then (s, false, V_NO_CANDS, []) else
